@@ -43,6 +43,7 @@ type Ledger struct {
 	T     map[string][]histT
 	Synced int64
 	Bank  map[int64][3]int64
+	Held  map[string]int64 // entry hash -> height it was put in holding
 }
 
 func parseBals(s string) map[int]*big.Int {
@@ -61,7 +62,7 @@ func parseBals(s string) map[int]*big.Int {
 
 func ParseDump(lines []string) *Ledger {
 	L := &Ledger{Bal: map[string]map[int]*big.Int{}, SP: map[string]map[int]*big.Int{}, SC: map[string]map[int]*big.Int{},
-		Rates: map[int64]map[string]uint64{}, T: map[string][]histT{}, Bank: map[int64][3]int64{}, Synced: -1}
+		Rates: map[int64]map[string]uint64{}, T: map[string][]histT{}, Bank: map[int64][3]int64{}, Held: map[string]int64{}, Synced: -1}
 	for _, l := range lines {
 		f := strings.Split(l, "|")
 		switch f[0] {
@@ -79,6 +80,11 @@ func ParseDump(lines []string) *Ledger {
 				L.Rates[h] = map[string]uint64{}
 			}
 			L.Rates[h][f[2]] = v
+		case "H":
+			h, _ := strconv.ParseInt(f[2], 10, 64)
+			if _, seen := L.Held[f[1]]; !seen {
+				L.Held[f[1]] = h
+			}
 		case "B":
 			h, _ := strconv.ParseInt(f[2], 10, 64)
 			bo, _ := strconv.ParseInt(f[3], 10, 64)
@@ -250,6 +256,27 @@ func CompareBalances(got, want map[string]map[int]*big.Int) string {
 }
 
 // MinBalance returns a description of a negative balance, if any.
+// PassedOver names a held batch that is still pending although a rated block above its holding
+// height has been applied ("" if none).
+func (L *Ledger) PassedOver() [][2]string {
+	var maxRated int64 = -1
+	for h := range L.Rates {
+		if h > maxRated && h <= L.Synced {
+			maxRated = h
+		}
+	}
+	var out [][2]string
+	for _, b := range L.B {
+		if b.exec != 0 {
+			continue
+		}
+		if hh, ok := L.Held[b.hash]; ok && hh < maxRated {
+			out = append(out, [2]string{b.hash, fmt.Sprintf("batch %s was put in holding at height %d and is still pending after the rated block %d", b.hash, hh, maxRated)})
+		}
+	}
+	return out
+}
+
 func (L *Ledger) Negative() string {
 	for a, m := range L.Bal {
 		for t, v := range m {
